@@ -11,7 +11,8 @@ class P(Prop):
     RULE = ("evaluate_v on sequences of 0..60 (thorough ..1000) non-NaN arguments, sorted and unsorted, repeats, exact ends, "
             "+-inf, over 1..12 segments; the evaluate_v_pt op also runs Piecewise::evaluate on each argument and the oracle demands "
             "bit equality wherever the argument is >= all earlier ones; a signed-zero class (runs of -0.0/+0.0 arguments, pieces with -0.0 coefficients); plus a laziness probe (input iterator counting pulls). non-trivial = >= 2 segments "
-            "selected; distinct by full input")
+            "selected; distinct by full input"
+            " Also: 70..300 dense sorted arguments followed by jumps, unsorted arguments over non-constant pieces against the piece of the running maximum evaluated at the argument, the iterator consumed in stages (next, then for_each / fold), equally spaced breakpoints queried one ulp around every knot.")
     TRUSTED = ["skeleton PwModel.ev_v tied to Piecewise::evaluate_v by bit-exact correspondence",
                "laziness: value k depends on the first k+1 arguments only is a theorem (C12_online); that the Rust adaptor pulls no input early is observed by a test (pull counter)"]
     ASSUMPTIONS = ["IEEE-754 comparisons"]
@@ -83,6 +84,30 @@ class P(Prop):
                 hi = max(e for e in es if e == e)
                 xs = xs[:3] + [C.bits(hi + 1.0)] + [C.bits(rng.uniform(min(es) - 2, hi)) for _ in range(6)]
             out.append(dict(op="evaluate_v_rm", ty=ty, segs=sg, xs=xs, meta={"class": "unsorted_nonconstant/" + ty}))
+        # the iterator consumed in STAGES: a few values through next(), the rest through for_each / fold (unsorted arguments, so that a
+        # cursor that is not carried over shows)
+        for _ in range(16 if tier == "quick" else 200):
+            k = rng.randint(2, 10)
+            es, sg = G.tag_segs(rng, k, rng.choice(["ints", "inc"]))
+            xs = history(rng, es, rng.randint(3, 20))
+            if rng.random() < 0.6:
+                hi = sorted(es)[-1]
+                xs = [C.bits(hi - 0.5), C.bits(hi + 1.0)][:rng.randint(1, 2)] + xs
+            out.append(dict(op="evaluate_v_mixed", ty="Poly0", segs=sg, xs=xs, take=rng.randint(0, min(4, len(xs))), meta={"class": "evaluate_v_mixed"}))
+        # (nearly) equally spaced breakpoints with a negative first one, arguments one ulp below / above the knots, tiny negative ones
+        for _ in range(12 if tier == "quick" else 150):
+            n = rng.randint(3, 10)
+            st = rng.choice([1.0, 0.5, 0.1, 1.0 / 3.0, 1e16, 0.7])
+            first = rng.choice([-1.0, -st, -2.0 * st, 0.0, -0.5])
+            es = [first + st * i for i in range(n)]
+            sg = [[C.bits(e), C.bits(float(100 * (i + 1)))] for i, e in enumerate(es)]
+            xs = []
+            for e in es:
+                b = C.bits(e)
+                xs += [C.next_down(b), b, C.next_up(b)]
+            xs += [C.bits(-1e-17), C.bits(-5e-324), C.bits(5e-324), C.bits(1.0 - 2.0 ** -53), C.bits(0.6)]
+            xs = sorted(xs, key=lambda b: C.fl(b))
+            out.append(dict(op="evaluate_v_pt", ty="Poly0", segs=sg, xs=xs, meta={"class": "regular_grid"}))
         out.append(dict(op="evaluate_v", ty="Poly0", segs=[], xs=[0], meta={"class": "empty"}))
         return out
 
@@ -91,6 +116,8 @@ class P(Prop):
             return None
         t = "run_evaluate_v [] [] %s %s %s" % (C.kname("%s::evaluate" % case["ty"]),
                                                C.zlistlist(case["segs"]), C.zlist(case["xs"]))
+        if case["op"] == "evaluate_v_mixed":
+            t = "(%s ++ %s)" % (t, t)
         if case["op"] == "evaluate_v_pt":
             t = "(%s ++ run_pw_eval [] [] %s %s %s)" % (t, C.kname("Segment<%s>::evaluate" % case["ty"]),
                                                         C.zlistlist(case["segs"]), C.zlist(case["xs"]))
@@ -136,6 +163,22 @@ class P(Prop):
                         return ("argument %d x=%r (>= every earlier argument): evaluate_v gave 0x%016x, evaluating it "
                                 "individually gives 0x%016x" % (k, x, answers[k], direct[k]))
                     m = x
+        elif case["op"] == "evaluate_v_mixed":
+            n = len(case["xs"])
+            if len(h["r"]) != 2 * n:
+                return "evaluate_v consumed in stages (next x %d, then for_each / fold) yielded %d and %d values for %d arguments" % (
+                    case.get("take", 0), min(len(h["r"]), n), max(0, len(h["r"]) - n), n)
+            a1, a2 = h["r"][:n], h["r"][n:]
+            m = None
+            for k, xb in enumerate(case["xs"]):
+                x = C.fl(xb)
+                m = x if m is None or x > m else m
+                exp = py_select(segs, m)[1]
+                for nm, a in (("for_each", a1), ("fold", a2)):
+                    if C.canon(a[k]) != C.canon(exp):
+                        return "evaluate_v: %d values taken with next(), the rest with %s: argument %d x=%r running max=%r: got tag 0x%016x, expected 0x%016x" % (
+                            case.get("take", 0), nm, k, x, m, a[k], exp)
+            return None
         else:
             answers = h["r"]
         if len(answers) != len(case["xs"]):
